@@ -13,7 +13,8 @@ Parts
      map on the present names into the universe that does not collide with an unrenamed block
      (swaps, 3-/4-cycles, chains), through t2grid.rename_blocks and through t2data.rename_blocks
      (also inverted); reorder with every block permutation / every connection permutation with any
-     subset reversed; minc; `+`; embed; check(fix=True).  Two histories reaching the same view
+     subset reversed; minc; `+`; embed (connection ends = the grids' own blocks, and 'copied-ends' =
+     deep copies / fresh same-named placeholder blocks); check(fix=True).  Two histories reaching the same view
      (ordered lists of names, rock assignment, volumes) are expanded once.  Length 4 (thorough): all
      states reached from 'empty' and 'chain3', a seeded eighth of those reached from 'ring4'; at the
      last level of either tier rename_blocks is called through t2grid only (its t2data and fix_blocknames=False
@@ -286,7 +287,15 @@ def apply_op(g, op):
         g = g + raw_grid(*OPERAND[op[1]])
     elif k == 'embed':
         sub = raw_grid(*OPERAND[op[1]])
-        con = t2connection([g.block[op[2]], sub.blocklist[0]], 1, [1., 1.], 1., 0.)
+        ends = [g.block[op[2]], sub.blocklist[0]]
+        if len(op) > 3:
+            # 'copied-ends': the connection is given blocks that only have the right NAMES (and volumes) but are
+            # not the grids' own objects - deep copies, or fresh placeholder blocks
+            if op[3] == 'copied-ends:deepcopy':
+                ends = [copy.deepcopy(b) for b in ends]
+            else:
+                ends = [t2block(b.name, b.volume, rocktype(b.rocktype.name)) for b in ends]
+        con = t2connection(ends, 1, [1., 1.], 1., 0.)
         with contextlib.redirect_stdout(io.StringIO()):
             res = g.embed(sub, con)
         return res        # may be None
@@ -528,7 +537,7 @@ def contract_step(g, op, history, init, st, vw=None):
     if vw is None:
         vw = view(g)
     ex = model(vw, op)
-    cat = '%s-%s' % (op[0], ex.situation)
+    cat = '%s-%s' % ('embed-copied-ends' if op[0] == 'embed' and len(op) > 3 else op[0], ex.situation)
     hist = list(history) + [op]
     st.nsteps += 1
     raised = None
@@ -705,6 +714,7 @@ def gen_ops(vw, variants=True):
     for host in present[:2]:
         for key in ('xy', 'xyr1', 'xybig', 'cd'):
             ops.append(('embed', key, host))
+            ops.append(('embed', key, host, 'copied-ends:deepcopy' if key in ('xy', 'xybig') else 'copied-ends:fresh'))
     ops.append(('check_fix',))
     return ops
 
@@ -1004,7 +1014,8 @@ def rand_op_big(vw, rnd, fresh_counter):
             oR, oB, oC = OPERAND[key]
             if any(r in used for r in oR):
                 continue
-            return (k, key, rnd.choice(B))
+            ends = rnd.choice([None, 'copied-ends:deepcopy', 'copied-ends:fresh'])
+            return (k, key, rnd.choice(B)) if ends is None else (k, key, rnd.choice(B), ends)
         if k == 'check_fix':
             if rnd.random() < 0.3:
                 return (k,)
